@@ -1166,8 +1166,12 @@ def evaluate(ctx, st, problems, runs, results):
                        'params': run['params'], 'algorithm': run['algorithm'], 'share': run['share'],
                        'iter_start': run['iter_start'], 'tags': run['tags']},
                       nontrivial=bool(info.get('converged')) and bool(info.get('moved')))
+        # witness class: a run in which some free parameter is pinned by lb == ub is marked (degenerate box; see the open
+        # finding C07/estimate/stationarity-pinned in KNOWN_FINDINGS.json)
+        pinned = any(q['lb'] is not None and q['lb'] == q['ub'] for q in run['params'] if not q['fixed'])
         for f in fs[:2]:
-            ctx.violation(f'C07/estimate/{f.clause}/{run["algorithm"]}', f.what, witness(p, [run]), f.expected, f.observed, HOW)
+            ctx.violation(f'C07/estimate/{f.clause}{"-pinned" if pinned else ""}/{run["algorithm"]}', f.what, witness(p, [run]),
+                          f.expected, f.observed, HOW)
     # --- (6) agreement of the maxima: all converged runs that solve the same problem
     groups = {}
     skipped = 0
@@ -1237,10 +1241,11 @@ def stream_estimate(ctx, n_problems=None, only=None, name='estimate'):
             pid = f'w{k}'
             problems[pid] = w['problem']
             for run in w['runs']:
-                run = {kk: vv for kk, vv in run.items() if kk != 'readable'}
-                run['pid'] = pid
-                run.setdefault('tags', {})
-                runs.append(run)
+                for a in (algorithms if run.get('algorithm') in (None, '*') else [run['algorithm']]):
+                    r2 = {kk: vv for kk, vv in run.items() if kk != 'readable'}
+                    r2.update({'pid': pid, 'algorithm': a})
+                    r2['tags'] = dict(run.get('tags') or {})
+                    runs.append(r2)
     else:
         rng = ctx.sub_rng(name)
         for k, w in enumerate(load_corpus()):
@@ -1253,7 +1258,7 @@ def stream_estimate(ctx, n_problems=None, only=None, name='estimate'):
                         r2.update({'pid': pid, 'algorithm': a})
                         r2['tags'] = dict(run.get('tags') or {})
                         runs.append(r2)
-        npb = n_problems if n_problems is not None else ctx.n(14, 120)
+        npb = n_problems if n_problems is not None else ctx.n(14, 300)
         gen = {}
         for k in range(npb):
             gen[f'p{k}'] = gen_problem(rng)
@@ -1433,9 +1438,10 @@ def replay(ctx, path):
         print('replay: this file names an obligation/stream; re-run ./check C07')
         return 2
     stream_estimate(ctx, only=[wit])
-    bad = bool(ctx.violations)
+    bad = bool(ctx.violations) or bool(ctx.known_hits)
     print(json.dumps({'key': w.get('key'), 'still_fails': bad,
-                      'violations': [{'key': v['key'], 'what': v['what'][:300]} for v in ctx.violations[:4]]}))
+                      'violations': [{'key': v['key'], 'what': v['what'][:300]} for v in ctx.violations[:4]],
+                      'known_findings': ctx.known_hits}))
     import shutil
     shutil.rmtree(ctx.scratch, ignore_errors=True)
     return 1 if bad else 0
